@@ -272,6 +272,54 @@ func bondgoSweep(thorough bool) []source {
 			out = append(out, source{"bondgo", "register-variable-count", t, []string{"-register-size", fmt.Sprint(rs)}, false, nil, nil, [3]int{}})
 		}
 	}
+	// variable types: n memory variables of which the k-th is a bool (every k: the bool is the first, an inner or
+	// the last cell of the RAM, the count sweeps across the powers of two)
+	for _, rs := range []int{8, 16} {
+		for _, n := range ns {
+			if n > 9 {
+				continue
+			}
+			for k := 0; k < n; k++ {
+				for _, resident := range []string{"", "reg_"} {
+					if resident != "" && !(thorough || k == n-1) {
+						continue
+					}
+					var sb strings.Builder
+					sb.WriteString("package main\n\nimport (\n\t\"bondgo\"\n)\n\nfunc main() {\n\tvar out0 bondgo.Output\n")
+					ty := fmt.Sprintf("uint%d", rs)
+					acc := -1
+					for i := 0; i < n; i++ {
+						if i == k {
+							fmt.Fprintf(&sb, "\tvar %sv%d bool\n", resident, i)
+						} else {
+							fmt.Fprintf(&sb, "\tvar v%d %s\n", i, ty)
+							if acc < 0 {
+								acc = i
+							}
+						}
+					}
+					sb.WriteString("\tout0 = bondgo.Make(bondgo.Output, 3)\n")
+					for i := 0; i < n; i++ {
+						if i == k {
+							fmt.Fprintf(&sb, "\t%sv%d = true\n", resident, i)
+						} else {
+							fmt.Fprintf(&sb, "\tv%d = %d\n", i, i+1)
+						}
+					}
+					for i := 0; i < n; i++ {
+						if i != k && i != acc {
+							fmt.Fprintf(&sb, "\tv%d = v%d + v%d\n", acc, acc, i)
+						}
+					}
+					if acc >= 0 {
+						fmt.Fprintf(&sb, "\tbondgo.IOWrite(out0, v%d)\n", acc)
+					}
+					sb.WriteString("}\n")
+					out = append(out, source{"bondgo", "variable-types", sb.String(), []string{"-register-size", fmt.Sprint(rs)}, false, nil, nil, [3]int{}})
+				}
+			}
+		}
+	}
 	return out
 }
 
@@ -528,6 +576,16 @@ func evaluate(s source) verdict {
 			return v
 		}
 		bm = m
+		// every source of this sweep has statements: a processor emitted with an EMPTY ROM means the tool could not
+		// place the program on the machine it sized (its assembler error is only printed) and emitted the machine
+		// anyway, instead of rejecting the source
+		for d, dom := range m.Domains {
+			if dom != nil && len(dom.Program.Slocs) == 0 {
+				v.accepted = true
+				v.fails = append(v.fails, wfFail{"emitted-without-its-program", fmt.Sprintf("processor %d has an empty ROM (R=%d L=%d O=%d); tool output: %s", d, dom.R, dom.L, dom.O, lastLine(log))})
+				return v
+			}
+		}
 	case "neuralbond":
 		cfg := "{\"DataType\":\"float32\",\"Params\":{\"expprec\":\"10\"}}\n"
 		b, log, err := runBinary("neuralbond", []string{"-net-file", "net.json", "-config-file", "cfg.json", "-neuron-lib-path", "/repo/library/neurons", "-save-basm", "nn.basm"},
